@@ -85,8 +85,8 @@ func hKnownEvalError() bool {
 }
 
 // hWitnessClass labels the path with the (single) witness class its findings belong to. Paths that already
-// carry the class of the pick-without-max panic are not examined further for the other two classes (keeps
-// the (site, class) identities of the findings apart): false.
+// carry the class of the pick-without-max panic are not examined further for the other classes (keeps the
+// (site, class) identities of the findings apart; to be re-examined once that panic is repaired): false.
 func hWitnessClass(def PresentationDefinition, creds []vc.VerifiableCredential, duplicate bool) bool {
 	class := ""
 	switch {
